@@ -158,6 +158,9 @@ func (ic *InjCase) report(sigIn map[string]string, m map[string]string, tag stri
 		ic.st.mu.Unlock()
 		if !ok {
 			c.Inconclusive(fmt.Sprintf("UNCONFIRMED counterexample %s for %s: replay did not reproduce (%s)", key, ic.Name(), why))
+			if os.Getenv("VERIF_DEBUG_REPLAY") != "" && rep != nil {
+				fmt.Fprintf(os.Stderr, "DEBUG schedule: %v\nscript: %+v\nobservations: %+v\ngenerated: %v\n", scheduleText(ic.Enc, m), script, rep.Observations, ic.Item.GenSrc)
+			}
 		}
 	} else if !seen {
 		status = "not-replayed"
@@ -206,6 +209,11 @@ func scriptFromModel(ic *InjCase, m map[string]string, attempt int) replay.Scrip
 	if attempt == 2 {
 		sc.Repeat = 25
 	}
+	// attempts 0 and 2 put gates in front of the injector's blocking operations, so
+	// that selects, receives and Wait are passed in the order of the model; attempt 1
+	// runs the unmodified file with provider gates only
+	sc.Gates = attempt != 1
+	arrivals := map[string]int{}
 	cancelDone := !cancelled
 	for _, s := range steps {
 		if !cancelDone && s.Clock > tc {
@@ -214,6 +222,12 @@ func scriptFromModel(ic *InjCase, m map[string]string, attempt int) replay.Scrip
 				sc.Steps = append(sc.Steps, replay.Step{Op: "settle"})
 			}
 			cancelDone = true
+		}
+		if sc.Gates && s.Line > 0 && (s.Kind == "recv" || s.Kind == "sel" || s.Kind == "wait") {
+			id := fmt.Sprintf("L%d", s.Line)
+			arrivals[id]++
+			sc.Steps = append(sc.Steps, replay.Step{Op: "pass", Gate: id, N: arrivals[id]})
+			continue
 		}
 		if s.Kind != "exit" {
 			continue
@@ -363,7 +377,7 @@ func faultExited(sc replay.Script, o replay.Observation) bool {
 func injectorCoverage(c *Ctx, st *injStats, queries int) {
 	c.Coverage["states"] = st.events
 	c.Coverage["transitions"] = queries
-	c.Coverage["traces_validated_against_impl"] = 0
+	c.Coverage["traces_validated_against_impl"] = st.replayOK
 	c.Coverage["evaluations"] = queries
 	c.Coverage["distinct_nontrivial"] = st.multiThread
 	c.Coverage["rule"] = "states = events of all encoded injectors (each event carries an occurrence bit and an integer clock: the encoding covers every interleaving, latency and select choice of that injector at once); transitions = solver queries discharged; distinct_nontrivial = distinct generated injectors with at least one goroutine"
